@@ -83,3 +83,11 @@ func debugSigs(w *World) {
 		}
 	}
 }
+
+func debugGlobals(w *World) {
+	for _, p := range []*ssa.Package{w.Root, w.Repl} {
+		for _, gw := range globalWrites(w, p) {
+			fmt.Printf("%s %s: %s %s %s\n", p.Pkg.Name(), w.posOf(gw.In), fnName(gw.Fn), gw.What, gw.G.Name())
+		}
+	}
+}
